@@ -387,6 +387,8 @@ def compare(I, op, a, b):
 
 
 def contains(I, container, item):
+    if getattr(container, 'kind', '') == 'chain':
+        return container.contains(item)
     if isinstance(container, VOpt):
         container = _unopt(I, container)
     if isinstance(container, (VStr, VToken)):
